@@ -2,6 +2,7 @@ import J5V.Compile.ConvertProofs
 import J5V.Compile.ShapeProofs
 import J5V.Compile.RefProofs
 import J5V.Compile.RefsPkg
+import J5V.Compile.SymProofs
 import J5V.Generated.CompileconstsFacts
 /-!
 # C02 — j5s compiles to exactly the protobuf contract the source declares
@@ -365,6 +366,27 @@ theorem C02_refs_resolve_pkg (b : Bundle) (name : Str) (p : Pkg) (l : Loaded) (f
   rw [hfiles]
   exact List.mem_flatMap.mpr ⟨_, hmem, by simp only [convOf, hfs]; exact hf'⟩
 
+/-- **Declared types are where the references point** (the link side of "references resolve to
+the declared type"). In a package that loads, every object / oneof / enum a j5s file declares —
+top level, nested, or inline at any depth, with the documented default or overridden nesting name
+— is (a) an entry of the package's export table under its package-relative dotted name, whose
+`TypeRef` names the generated main file `<path>.proto` (the table `C02_refs_resolve` says local
+and imported references are looked up in), and (b) a message / enum symbol
+`<package>.<dotted name>` of exactly that generated file in the link model. With
+`C02_refs_resolve_pkg` (the declaring file is the holding file or one of its imports): the
+absolute name `.pkg.Name` written on a referring field names a symbol of a visible file. -/
+theorem C02_declared_types_link (b : Bundle) (name : Str) (p : Pkg) (l : Loaded) (fuel : Nat)
+    (chain : List Str) (hf : b.find name = some p) (hl : loadPkg b (fuel + 1) chain name = .ok l)
+    (path : Str) (imports : List Import) (elems : List Elem) (decl : Str)
+    (hmem : SrcFile.j5s path imports elems decl ∈ p.files)
+    (hpkg : packageFromFilename (path ++ b!".proto") ≠ []) :
+    ∃ g ∈ l.files, g.name = path ++ b!".proto" ∧
+      ∀ i ∈ elems.flatMap (itemsOfElem (packageFromFilename (path ++ b!".proto"))), i.target = .main →
+        ∀ x ∈ itemExports i,
+          (x.1, (⟨packageFromFilename (path ++ b!".proto"), x.1, path ++ b!".proto", x.2⟩ : TypeRef)) ∈ l.exports ∧
+          (qual (packageFromFilename (path ++ b!".proto")) x.1, kindSym x.2) ∈ g.lfile.syms :=
+  declared_types_link b name p l fuel chain hf hl path imports elems decl hmem hpkg
+
 /-! ## Non-vacuity -/
 
 /-- a two-package bundle: `bar.v1` refers to a type of `foo.v1` through the last-but-one segment
@@ -391,6 +413,8 @@ example : (match compilePkg exBundle b!"bar.v1" with
     | .ok fs => decide (fs.map (·.name) = [b!"bar/v1/b.j5s.proto", b!"bar/v1/c.j5s.proto",
         b!"bar/v1/service/c.p.j5s.proto", b!"bar/v1/topic/c.p.j5s.proto"])
     | _ => false) = true := by decide
+
+example : packageFromFilename (b!"bar/v1/c.j5s" ++ b!".proto") ≠ [] := by decide
 
 /-- a concrete object: two scalar fields and an inline object, converted without error -/
 def exObj : ObjDecl :=
